@@ -33,7 +33,7 @@ CLAIMED = {
    category="exploration",
    technique="property-based testing (rapid): inputs from grammar derivations, corpus mutations, typed queries and builder programs; metamorphic oracles (repeat, deep-clone differential, marker non-interference, concurrent vs sequential) plus an input-immutability invariant (address-level reflection snapshots); race detector in the thorough tier",
    text="ASTs from six sources (random Cypher.g4 derivations, corpus mutations incl. literal->$param with fresh and bound-variable names, typed generated queries (one in three from the lowering / fast-path shaped templates), every shipped query, builder programs through package query, cypher model constructors) x parameter maps (31 supported and 25 unsupported value kinds, names that do / do not occur) x kind-mapper knowledge. Each case is decided by: no panic; marker interleaving A,B,A (no value of one call appears in another call's result, results stable); 5 repeated Translate+Translated calls byte-identical with equal parameter maps and stable error text; translation of an independent deep clone gives the same result; FromCypher; 8 goroutines on the shared AST, caller's map and one kind mapper; address-level snapshots of the AST and the parameter map compared after every phase.",
-   note="Schedules are sampled (8 goroutines; -race in thorough only); totality is established only for explored shapes (10 panic/impurity roots found and repaired); "within bounded time" is decided by the growth sub-check: 23 size-parameterised query families translated at n and 2n, allocation count (<= 16x) and, for allocation-free work, the clock ratio (> 64x with a floor of 250 ms) - an exponential translation is reported as growth; a hang elsewhere would surface as a timeout = inconclusive, not as a violation; a write into spare slice capacity of a caller's slice shows only under -race.",
+   note="Schedules are sampled (8 goroutines; -race in thorough only); totality is established only for explored shapes (10 panic/impurity roots found and repaired); 'within bounded time' is decided by the growth sub-check: 23 size-parameterised query families translated at n and 2n, allocation count (<= 16x) and, for allocation-free work, the clock ratio (> 64x with a floor of 250 ms) - an exponential translation is reported as growth; a hang elsewhere would surface as a timeout = inconclusive, not as a violation; a write into spare slice capacity of a caller's slice shows only under -race.",
    design="§4 C05"),
  "C06": dict(
    category="exploration",
